@@ -100,6 +100,6 @@ class TaggedGate(
 
     def __hash__(self) -> int:
         if isinstance(self.tag, dict):
-            return hash((self.gate, tuple(self.tag.items())))
+            return hash((self.gate, frozenset(self.tag.items())))
 
         return hash((self.gate, self.tag))
